@@ -89,7 +89,7 @@ func (k *KeyperEnv) Run(u *Universe, c *Case, msg *p2pmsg.DecryptionKeys) Obs {
 	e.srv.Update(func(db *fakepg.DB) {
 		db.KeyperSet = db.KeyperSet[:0]
 		for _, eon := range u.Eons() {
-			db.KeyperSet = append(db.KeyperSet, *u.KeyperSet(c, eon))
+			db.KeyperSet = append(db.KeyperSet, *u.KeyperSet(c, eon, c.LastAnn()))
 		}
 		db.SlotDecryptionSignatures = nil
 		db.DecryptionSignatures = nil
